@@ -517,6 +517,40 @@ def sort_stable(n: int, f0: str, c0: str, k0: str, r0: int, g0: int, f1: str, c1
     return True
 
 
+def sort_numbered_columns(r0: int, r1: int, r2: int, c0: int, c1: int, has: int, n: int) -> bool:
+    """
+    pre: 2 <= n <= 3
+    pre: 0 <= r0 <= 3 and 0 <= r1 <= 3 and 0 <= r2 <= 3
+    pre: 0 <= c0 <= 3 and 0 <= c1 <= 3
+    pre: 0 <= has <= 3
+    post: _
+    """
+    # a spreadsheet without a header line labels its columns with NUMBERS; row-level issues carry no column at
+    # all.  Sorting such a list must not raise and must still order by row (stable otherwise).
+    from hed.errors.error_types import ErrorContext as EC
+    issues = []
+    rows = [r0, r1, r2][:n]
+    cols = [c0, c1, 0][:n]
+    for i in range(n):
+        d = {"code": "X", "message": "m%d" % i, "severity": 1, EC.FILE_NAME: "f", EC.ROW: rows[i]}
+        if i < 2 and (has >> i) & 1:
+            d[EC.COLUMN] = cols[i]
+        issues.append(d)
+    out = sort_issues(issues)
+    if len(out) != n:
+        return False
+    for d in issues:
+        if not M.same_objects([x for x in out if x is d], [d]):
+            return False
+    for x, y in zip(out, out[1:]):
+        if x[EC.ROW] > y[EC.ROW]:
+            return False
+        if x[EC.ROW] == y[EC.ROW] and EC.COLUMN not in x and EC.COLUMN not in y:
+            if issues.index(x) > issues.index(y):
+                return False                 # stable among issues with equal keys
+    return True
+
+
 # ------------------------------------------------------------------ 6. export
 def export_json_safe(t: str, kind: int, row: int, passes: int, nest: int) -> bool:
     """
@@ -652,6 +686,12 @@ HARNESSES = [
              "of the preceding cells + commas, and those offsets select that tag's text in the combined text",
         oracle="models/issues_ref.py (WHOLE) + slice equality", stubs=[_STUB_PARSE, _STUB_NS],
         outside="more than three cells, longer cells"),
+    R.H("sort_numbered_columns", [_ER + "sort_issues"],
+        quick=R.tier(timeout=300, bound="2-3 issues of one file, rows in 0..3, the first two with a numeric column label "
+                                        "(0..3) or none"),
+        what="sort_issues does not raise when table columns are labelled by numbers (header-less spreadsheets) or "
+             "absent, and still orders by row, stably",
+        oracle="inline", stubs=[], outside="more issues; mixed string and numeric labels in one list"),
     R.H("decorate_once", [_ER + "ErrorHandler.format_error_with_context",
                           _ER + "ErrorHandler.format_error_from_context",
                           _ER + "ErrorHandler.filter_issues_by_severity", _ER + "hed_error",
